@@ -249,6 +249,9 @@ func (g *gen) elabName(name string, e *env) (Val, error) {
 				return g.constVal(c), nil
 			case *types.Var:
 				if gl, ok := g.fn.Pkg.Members[name].(*ssa.Global); ok {
+					if t, ok := sentinelErr(gl); ok {
+						return Val{T: t, S: "Iface", GoT: o.Type()}, nil
+					}
 					gv := g.val(gl)
 					return Val{T: g.loadLoc(e.st, gv.L), S: gv.L.Sort, GoT: gv.L.GoT}, nil
 				}
